@@ -45,7 +45,7 @@ theorem resolve_fuel_irrelevant (G : Env) (rk : String → Nat) (hfit : Fits G r
 
 /-- flatten_glyph: replacing the components of `n` by the leaves below them with composed transforms leaves the
     outline of EVERY glyph `m` unchanged, as a list.  `hmix` is the code's stated assumption that no mixed
-    contour+component glyph is reachable (glyph.rs:592); `F` is the fuel of the model's flatten loop. -/
+    contour+component glyph is reachable (glyph.rs:615); `F` is the fuel of the model's flatten loop. -/
 theorem flatten_preserves (G : Env) (rk : String → Nat) (hfit : Fits G rk) (n : String) (i : Inst)
     (hG : G n = some i) (F : Nat) (hF : rk n ≤ F) (hmix : ∀ c ∈ i.comps, NoMixedFrom G c.base)
     (f : Nat) (m : String) (hm : rk m < f) :
@@ -290,7 +290,7 @@ theorem rounding_general_2x2 (ε : Rat) (hε : 0 ≤ ε) (ts ts' : List Affine) 
 /-! ### A genuine defect: flattening can leave the representable range -/
 
 /-- What apply_optional_transformations relies on (the overflow check `has_overflowing_component_transforms`
-    runs BEFORE flattening, glyph.rs:891 vs :922): if no component transform of the source overflows F2Dot14,
+    runs BEFORE flattening, glyph.rs:918 vs :949): if no component transform of the source overflows F2Dot14,
     none does after flattening. -/
 def FlattenKeepsRepresentable : Prop :=
   ∀ (G : Env) (rk : String → Nat) (F : Nat) (n : String) (i : Inst), Fits G rk → G n = some i → rk n ≤ F →
